@@ -8,6 +8,8 @@ Quantifiers: every item satisfying the decidable `Item.WF` (all shipped items do
 -/
 import GeckoModel.Proofs.AccessorFrame
 import GeckoModel.Properties.C18
+import GeckoModel.Proofs.Coop
+import GeckoModel.Generated.Skeletons
 
 namespace GeckoModel.C02
 open GeckoModel GeckoModel.Generated GeckoModel.Bits
@@ -212,5 +214,55 @@ def exItem : Item := ⟨"X", "X", 300, .enum, 1, some 2, 3, ["OFF", "LO", "HI"],
 example : exItem.WF := by decide
 example : exItem.owns 300 2 = true ∧ exItem.owns 300 3 = true ∧ exItem.owns 300 4 = false ∧ exItem.owns 301 2 = false := by decide
 example : (exItem.encode (List.replicate 1024 0xFF) (.str "LO")).toOption = some ⟨300, 1, 0xF7⟩ := by decide +kernel
+
+/-! ### the two write paths are one piece of code -/
+
+namespace Paths
+open GeckoModel.Generated
+
+/-- how the awaitable names map to the blocking ones -/
+def ren (n : String) : String :=
+  if n == "self.struct.async_set_value" then "self.struct.set_value"
+  else if n == "super().async_set_value" then "super()._set_value"
+  else if n == "self._on_async_set_value" then "self._on_set_value" else n
+
+/-- **the blocking and the awaitable write path are the same code**: over the regenerated skeletons of the real methods, the
+awaitable `async_set_value` of an item (plain and temperature) and of the structure, with its one await turned into a call,
+IS the blocking `_set_value` / `set_value` - same tests, same conversions, same merge, in the same order; the only difference is
+that the hand-off is awaited.  In particular neither path has a test or a piece of state the other lacks (no "skip this write"
+on one path only, no memory of earlier writes) -/
+theorem write_paths_are_the_same_code :
+    Coop.blockingTwin ren Skeletons.sk_driver_accessor__GeckoStructAccessor_async_set_value =
+      Skeletons.sk_driver_accessor__GeckoStructAccessor__set_value ∧
+    Coop.rassoc (Coop.blockingTwin ren Skeletons.sk_driver_accessor__GeckoTempStructAccessor_async_set_value) =
+      Coop.rassoc Skeletons.sk_driver_accessor__GeckoTempStructAccessor__set_value ∧
+    Coop.blockingTwin ren Skeletons.sk_driver_async_spastruct__GeckoAsyncStructure_async_set_value =
+      Skeletons.sk_driver_spastruct__GeckoStructure_set_value ∧
+    Skeletons.sk_driver_async_spastruct__GeckoAsyncStructure_set_value = Skeletons.sk_driver_spastruct__GeckoStructure_set_value := by
+  decide +kernel
+
+/-- the structures' hand-offs are pure delegation and the items' write methods keep nothing on the item: no attribute of `self` is
+assigned on any of the six methods, so a write cannot be influenced by an earlier one (whether that one completed, failed or was
+cancelled) -/
+theorem write_paths_keep_no_state :
+    [Skeletons.sk_driver_accessor__GeckoStructAccessor__set_value, Skeletons.sk_driver_accessor__GeckoStructAccessor_async_set_value,
+     Skeletons.sk_driver_accessor__GeckoTempStructAccessor__set_value, Skeletons.sk_driver_accessor__GeckoTempStructAccessor_async_set_value,
+     Skeletons.sk_driver_spastruct__GeckoStructure_set_value, Skeletons.sk_driver_async_spastruct__GeckoAsyncStructure_set_value,
+     Skeletons.sk_driver_async_spastruct__GeckoAsyncStructure_async_set_value].all
+      (fun sk => Coop.selfStateWritten sk == [] && (Coop.actions .del sk) == []) = true ∧
+    Coop.awaitsIn Skeletons.sk_driver_async_spastruct__GeckoAsyncStructure_async_set_value = ["self._on_async_set_value"] ∧
+    Coop.actions .brT Skeletons.sk_driver_async_spastruct__GeckoAsyncStructure_async_set_value = [] := by decide +kernel
+
+/-- every normal end of the item's write method has handed the write over: no path returns without the hand-off -/
+theorem every_write_is_handed_over :
+    Coop.everyNormalEndDid (fun a => a.kind == .call && a.name == "self.struct.set_value")
+      Skeletons.sk_driver_accessor__GeckoStructAccessor__set_value = true := by decide +kernel
+
+/-- non-vacuity: a remembered write is state, and a guard before the hand-off is a path without it -/
+example : Coop.selfStateWritten (.seq (.ev (.act ⟨.call, "self._writes_in_flight.add"⟩)) (.ev (.act ⟨.set, "self._last_write"⟩))) = ["self._last_write"] ∧
+    Coop.everyNormalEndDid (fun a => a.kind == .call && a.name == "self.struct.set_value")
+      (.alt (.seq (.ev (.act ⟨.brT, "newvalue == existing"⟩)) .exit) (.ev (.act ⟨.call, "self.struct.set_value"⟩))) = false := by decide +kernel
+
+end Paths
 
 end GeckoModel.C02
